@@ -120,6 +120,52 @@ theorem live_dead {st : Top} (h : Dead st) : live true st = false := by
   obtain ⟨h1, _⟩ := h
   cases hp : st.parent <;> simp_all [live]
 
+theorem blockLive_dead {st : Top} (h : Dead st) : blockLive true st = false := by
+  obtain ⟨h1, h2⟩ := h
+  cases hk : st.known
+  · have : st.extSoFar > 0 := by cases h2 with | inl h => simp [hk] at h | inr h => exact h
+    simp [blockLive, hk, this, h1]
+  · simp [blockLive, hk]
+
+theorem concatM_ok_nil : (rs : List Res) → (∀ r ∈ rs, r = .ok []) → concatM rs = .ok []
+  | [], _ => rfl
+  | r :: rs, h => by
+    have h1 := h r (List.mem_cons_self ..)
+    have h2 := concatM_ok_nil rs (fun r' hr => h r' (List.mem_cons_of_mem _ hr))
+    simp [concatM, h1, h2]
+
+mutual
+/-- a frame whose output statements and block call sites are both dead yields nothing -/
+theorem silent_piece (callee : Callee) (vars : Vars) (B : Blocks) (cur : Option BRef) :
+    (p : Piece) → (loc : Vars) → countExtP p = 0 → pieceWith callee vars B cur false false loc p = .ok []
+  | .text _, _, _ => by simp [pieceWith]
+  | .var _, _, _ => by simp [pieceWith]
+  | .block _ _ _ _, _, _ => by simp [pieceWith]
+  | .superCall _, _, _ => by simp [pieceWith]
+  | .selfCall _, _, _ => by simp [pieceWith]
+  | .forLoop x items body, loc, h => by
+    simp only [countExtP] at h
+    simp only [pieceWith]
+    apply concatM_ok_nil
+    intro r hr
+    rw [List.mem_map] at hr
+    obtain ⟨i, _, rfl⟩ := hr
+    exact silent_list callee vars B cur body ((x, i) :: loc) h
+  | .ifc f body, loc, h => by
+    simp only [countExtP] at h
+    simp only [pieceWith]
+    split
+    · exact silent_list callee vars B cur body loc h
+    · rfl
+  | .ext _, _, h => by simp [countExtP] at h
+theorem silent_list (callee : Callee) (vars : Vars) (B : Blocks) (cur : Option BRef) :
+    (ps : List Piece) → (loc : Vars) → countExtL ps = 0 → listWith callee vars B cur false false loc ps = .ok []
+  | [], _, _ => by simp [listWith]
+  | p :: ps, loc, h => by
+    simp only [countExtL] at h
+    simp [listWith, silent_piece callee vars B cur p loc (by omega), silent_list callee vars B cur ps loc (by omega)]
+end
+
 mutual
 theorem quiet_topPiece (L : List Tpl) (fuel : Nat) (vars : Vars) :
     (p : Piece) → (rl : Bool) → (st : Top) → Dead st → quietP p = true →
@@ -128,17 +174,13 @@ theorem quiet_topPiece (L : List Tpl) (fuel : Nat) (vars : Vars) :
   | .var x, rl, st, hd, _ => ⟨st.extSoFar, by simp [topPiece, pieceWith, live_dead hd], Nat.le_refl _⟩
   | .superCall k, rl, st, hd, _ => ⟨st.extSoFar, by simp [topPiece, pieceWith, live_dead hd], Nat.le_refl _⟩
   | .selfCall n, rl, st, hd, _ => ⟨st.extSoFar, by simp [topPiece, pieceWith, live_dead hd], Nat.le_refl _⟩
-  | .block n sc rq body, rl, st, hd, _ => by
+  | .block n sc rq body, rl, st, hd, _ =>
+    ⟨st.extSoFar, by simp [topPiece, pieceWith, live_dead hd, blockLive_dead hd], Nat.le_refl _⟩
+  | .forLoop x items body, rl, st, hd, hq => by
+    simp only [quietP, beq_iff_eq] at hq
     refine ⟨st.extSoFar, ?_, Nat.le_refl _⟩
-    obtain ⟨h1, h2⟩ := hd
-    obtain ⟨pa, kn, es, bl⟩ := st
-    simp only at h1 h2
-    by_cases hk : kn = true
-    · simp [topPiece, hk]
-    · have : es > 0 := by cases h2 with | inl h => exact absurd h hk | inr h => exact h
-      have hk' : kn = false := by simpa using hk
-      simp [topPiece, hk', this, h1]
-  | .forLoop _ _ _, _, _, _, hq => by simp [quietP] at hq
+    simp only [topPiece, live_dead hd, blockLive_dead hd]
+    rw [silent_piece _ _ _ _ (.forLoop x items body) [] (by simpa [countExtP] using hq)]
   | .ext _, _, _, _, hq => by simp [quietP] at hq
   | .ifc f body, rl, st, hd, hq => by
     simp only [quietP] at hq
@@ -166,6 +208,9 @@ end
 theorem live_fresh (he : Bool) (es : Nat) (B : Blocks) : live he ⟨none, false, es, B⟩ = true := by
   simp [live]
 
+theorem blockLive_fresh (he : Bool) (es : Nat) (B : Blocks) : blockLive he ⟨none, false, es, B⟩ = true := by
+  simp [blockLive]
+
 /-- lift a body result to a top-level result -/
 def liftTop (B : Blocks) (e : Nat) : Res → Except Err (Top × Text)
   | .ok o => .ok (⟨none, false, e, B⟩, o)
@@ -175,13 +220,13 @@ mutual
 theorem root_topPiece (L : List Tpl) (fuel : Nat) (vars : Vars) (B : Blocks) :
     (p : Piece) → (he rl : Bool) → (es : Nat) → noLiveExtP vars p = true →
     ∃ e, topPiece L fuel vars he rl ⟨none, false, es, B⟩ p
-      = liftTop B e (pieceWith (callFn fuel B) vars B none true [] p)
-  | .text s, he, rl, es, _ => ⟨es, by simp [topPiece, live_fresh, liftTop]; split <;> simp_all⟩
-  | .var x, he, rl, es, _ => ⟨es, by simp [topPiece, live_fresh, liftTop]; split <;> simp_all⟩
-  | .superCall k, he, rl, es, _ => ⟨es, by simp [topPiece, live_fresh, liftTop]; split <;> simp_all⟩
-  | .selfCall n, he, rl, es, _ => ⟨es, by simp [topPiece, live_fresh, liftTop]; split <;> simp_all⟩
-  | .forLoop x it body, he, rl, es, _ => ⟨es, by simp [topPiece, live_fresh, liftTop]; split <;> simp_all⟩
-  | .block n sc rq body, he, rl, es, _ => ⟨es, by simp [topPiece, liftTop]; split <;> simp_all⟩
+      = liftTop B e (pieceWith (callFn fuel B) vars B none true true [] p)
+  | .text s, he, rl, es, _ => ⟨es, by simp [topPiece, live_fresh, blockLive_fresh, liftTop]; split <;> simp_all⟩
+  | .var x, he, rl, es, _ => ⟨es, by simp [topPiece, live_fresh, blockLive_fresh, liftTop]; split <;> simp_all⟩
+  | .superCall k, he, rl, es, _ => ⟨es, by simp [topPiece, live_fresh, blockLive_fresh, liftTop]; split <;> simp_all⟩
+  | .selfCall n, he, rl, es, _ => ⟨es, by simp [topPiece, live_fresh, blockLive_fresh, liftTop]; split <;> simp_all⟩
+  | .forLoop x it body, he, rl, es, _ => ⟨es, by simp [topPiece, live_fresh, blockLive_fresh, liftTop]; split <;> simp_all⟩
+  | .block n sc rq body, he, rl, es, _ => ⟨es, by simp [topPiece, live_fresh, blockLive_fresh, liftTop]; split <;> simp_all⟩
   | .ext _, _, _, _, hq => by simp [noLiveExtP] at hq
   | .ifc f body, he, rl, es, hq => by
     simp only [noLiveExtP] at hq
@@ -193,7 +238,7 @@ theorem root_topPiece (L : List Tpl) (fuel : Nat) (vars : Vars) (B : Blocks) :
 theorem root_topList (L : List Tpl) (fuel : Nat) (vars : Vars) (B : Blocks) :
     (ps : List Piece) → (he rl : Bool) → (es : Nat) → noLiveExtL vars ps = true →
     ∃ e, topList L fuel vars he rl ⟨none, false, es, B⟩ ps
-      = liftTop B e (listWith (callFn fuel B) vars B none true [] ps)
+      = liftTop B e (listWith (callFn fuel B) vars B none true true [] ps)
   | [], he, rl, es, _ => ⟨es, by simp [topList, listWith, liftTop]⟩
   | p :: ps, he, rl, es, hq => by
     simp only [noLiveExtL, Bool.and_eq_true] at hq
@@ -201,11 +246,11 @@ theorem root_topList (L : List Tpl) (fuel : Nat) (vars : Vars) (B : Blocks) :
     obtain ⟨e2, h2⟩ := root_topList L fuel vars B ps he rl e1 hq.2
     refine ⟨e2, ?_⟩
     simp only [topList, listWith, h1]
-    cases hp : pieceWith (callFn fuel B) vars B none true [] p with
+    cases hp : pieceWith (callFn fuel B) vars B none true true [] p with
     | error x => simp [liftTop]
     | ok a =>
       simp only [liftTop, h2]
-      cases hl : listWith (callFn fuel B) vars B none true [] ps <;> simp [liftTop]
+      cases hl : listWith (callFn fuel B) vars B none true true [] ps <;> simp [liftTop]
 end
 
 /-! ## chains of the documented shape -/
@@ -268,7 +313,7 @@ theorem runRoots_chain (L : List Tpl) (fuel : Nat) (vars : Vars) :
     (chain : List Tpl) → (c : Tpl) → (hops : Nat) → (B : Blocks) → (root : Tpl) →
     IsChain L vars (c :: chain) → chain.length < hops → (c :: chain).getLast? = some root →
     runRoots L fuel vars hops B c
-      = match listWith (callFn fuel (chain.foldl registerParent B)) vars (chain.foldl registerParent B) none true []
+      = match listWith (callFn fuel (chain.foldl registerParent B)) vars (chain.foldl registerParent B) none true true []
             root.body with
         | .ok o => .ok (chain.foldl registerParent B, o)
         | .error e => .error e
@@ -277,7 +322,7 @@ theorem runRoots_chain (L : List Tpl) (fuel : Nat) (vars : Vars) :
     simp at hlast; subst hlast
     obtain ⟨e, he⟩ := root_topList L fuel vars B c.body (haveExt c) true 0 hch.2
     simp only [runRoots, he, List.foldl_nil]
-    cases listWith (callFn fuel B) vars B none true [] c.body <;> simp [liftTop]
+    cases listWith (callFn fuel B) vars B none true true [] c.body <;> simp [liftTop]
   | p :: rest, c, hops, B, root, hch, hlen, hlast => by
     obtain ⟨h, rfl⟩ : ∃ h, hops = h + 1 := ⟨hops - 1, by simp at hlen; omega⟩
     obtain ⟨_, hchild, hrest⟩ := hch
@@ -286,7 +331,7 @@ theorem runRoots_chain (L : List Tpl) (fuel : Nat) (vars : Vars) :
       (by simpa [List.getLast?_cons_cons] using hlast)
     simp only [runRoots, hst, hpar, hbl, ih, List.foldl_cons]
     cases listWith (callFn fuel (rest.foldl registerParent (registerParent B p))) vars
-      (rest.foldl registerParent (registerParent B p)) none true [] root.body <;> simp
+      (rest.foldl registerParent (registerParent B p)) none true true [] root.body <;> simp
 
 /-! ## model function bodies vs. specification bodies -/
 
@@ -344,14 +389,16 @@ theorem findIdx_refs (b : Name) : (chain : List Tpl) → (i : Nat) → (c : BRef
         have : sameFn c r = false := by simp [sameFn, hne]
         simp [List.findIdx_cons, this, findIdx_refs b rest j c hnd' h]
 
+
+/-- the only way the emitted call-site test `len(blocks[n]) <= 1` can fire: the placeholder's own declaration is the
+    single definition (then that definition is the required one) -/
 def reqAgree (chain : List Tpl) (n : Name) (rq : Bool) : Bool :=
   match defs chain n with
-  | [] => true
-  | d :: more => (rq && more.isEmpty) == d.req
+  | [d] => !rq || d.req
+  | _ => true
 
 mutual
-/-- at every placeholder, the generated `len(context.blocks[name]) <= 1` test says what the documentation asks for:
-    "the most-derived definition is a required declaration" -/
+/-- every `required` placeholder of the piece is itself among the definitions of its name along the chain -/
 def agreeP (chain : List Tpl) : Piece → Bool
   | .block n _ rq body => reqAgree chain n rq && agreeL chain body
   | .forLoop _ _ body => agreeL chain body
@@ -362,36 +409,77 @@ def agreeL (chain : List Tpl) : List Piece → Bool
   | p :: ps => agreeP chain p && agreeL chain ps
 end
 
+def agreeAll (chain : List Tpl) : Bool := chain.all (fun t => agreeL chain t.body)
+
 def CurRel (chain : List Tpl) : Option BRef → Option (Name × Nat) → Prop
   | none, none => True
   | some r, some (b, i) => (refs chain b)[i]? = some r
   | _, _ => False
 
-def CalleeRel (chain : List Tpl) (callee : Callee) (callee' : SpecInherit.Callee) : Prop :=
-  ∀ vars b i r, (refs chain b)[i]? = some r → callee vars r = callee' vars b i
+/-- the model's callee and the specification's callee agree on every registry entry that is not a required
+    declaration at the head of its stack; on those the model's block function raises at its first statement -/
+structure CalleeRel (chain : List Tpl) (B : Blocks) (callee : Callee) (callee' : SpecInherit.Callee) : Prop where
+  eq : ∀ vars b i r, (refs chain b)[i]? = some r → isRequiredHead B r = false → callee vars r = callee' vars b i
+  req : ∀ vars r, isRequiredHead B r = true → callee vars r = .error .required
+
+theorem sameFn_self (r : BRef) : sameFn r r = true := by simp [sameFn]
+
+/-- `context.blocks[name][0] is block_name` holds exactly for entry 0 of the stack -/
+theorem isRequiredHead_refs (chain : List Tpl) (B : Blocks) (hB : ∀ b, stackOf B b = refs chain b)
+    (hnd : (chain.map (·.name)).Nodup) {b : Name} {i : Nat} {r : BRef} (h : (refs chain b)[i]? = some r) :
+    isRequiredHead B r = (r.decl.req && i == 0) := by
+  have hname := (mem_refs (List.mem_of_getElem? h)).2
+  have hidx := findIdx_refs b chain i r hnd h
+  unfold isRequiredHead
+  rw [hname, hB b]
+  cases hr : refs chain b with
+  | nil => rw [hr] at h; simp at h
+  | cons top more =>
+    rw [hr] at hidx h
+    simp only [List.findIdx_cons] at hidx
+    cases i with
+    | zero => simp at h; subst h; simp [sameFn_self]
+    | succ j =>
+      cases hs : sameFn r top with
+      | true => simp [hs] at hidx
+      | false => simp [hs]
 
 theorem sim_block (chain : List Tpl) (B : Blocks) (callee : Callee) (callee' : SpecInherit.Callee)
-    (hB : ∀ b, stackOf B b = refs chain b) (hcal : CalleeRel chain callee callee')
+    (hB : ∀ b, stackOf B b = refs chain b) (hnd : (chain.map (·.name)).Nodup) (hcal : CalleeRel chain B callee callee')
     (n : Name) (sc rq : Bool) (body : List Piece) (vars loc : Vars) (cur : Option BRef) (cur' : Option (Name × Nat))
     (ha : reqAgree chain n rq = true) :
-    pieceWith callee vars B cur true loc (.block n sc rq body) = piece chain callee' vars cur' loc (.block n sc rq body) := by
-  simp only [pieceWith, piece, hB n]
+    pieceWith callee vars B cur true true loc (.block n sc rq body)
+      = piece chain callee' vars cur' loc (.block n sc rq body) := by
+  simp only [pieceWith, piece, if_true, hB n]
   unfold reqAgree at ha
   rw [defs_eq_refs] at ha ⊢
   cases hr : refs chain n with
   | nil => simp
   | cons top more =>
-    simp only [hr, List.map_cons, List.isEmpty_map, beq_iff_eq] at ha
-    simp only [List.map_cons, List.head?_cons, ha]
     have h0 : (refs chain n)[0]? = some top := by simp [hr]
+    have hhead := isRequiredHead_refs chain B hB hnd h0
+    simp only [hr, List.map_cons] at ha
+    simp only [List.map_cons, List.head?_cons]
     by_cases hq : top.decl.req = true
-    · simp [hq]
-    · simp [hq, hcal _ n 0 top h0]
+    · have hreq : isRequiredHead B top = true := by simp [hhead, hq]
+      by_cases hc : (rq && more.isEmpty) = true
+      · simp [hc, hq]
+      · simp [hc, hq, hcal.req _ top hreq]
+    · have hnreq : isRequiredHead B top = false := by simp [hhead, hq]
+      have hc : (rq && more.isEmpty) = false := by
+        cases more with
+        | nil =>
+          simp only [List.isEmpty_nil, Bool.and_true]
+          cases rq with
+          | false => rfl
+          | true => simp at ha; exact absurd ha hq
+        | cons _ _ => simp
+      simp [hc, hq, hcal.eq _ n 0 top h0 hnreq]
 
 theorem sim_super (chain : List Tpl) (B : Blocks) (callee : Callee) (callee' : SpecInherit.Callee)
-    (hB : ∀ b, stackOf B b = refs chain b) (hnd : (chain.map (·.name)).Nodup) (hcal : CalleeRel chain callee callee')
+    (hB : ∀ b, stackOf B b = refs chain b) (hnd : (chain.map (·.name)).Nodup) (hcal : CalleeRel chain B callee callee')
     (k : Nat) (vars loc : Vars) (cur : Option BRef) (cur' : Option (Name × Nat)) (hc : CurRel chain cur cur') :
-    pieceWith callee vars B cur true loc (.superCall k) = piece chain callee' vars cur' loc (.superCall k) := by
+    pieceWith callee vars B cur true true loc (.superCall k) = piece chain callee' vars cur' loc (.superCall k) := by
   simp only [pieceWith, piece, if_true]
   match cur, cur', hc with
   | none, none, _ => rfl
@@ -410,33 +498,41 @@ theorem sim_super (chain : List Tpl) (B : Blocks) (callee : Callee) (callee' : S
         rcases Nat.lt_or_ge (i + 1 + k) (refs chain b).length with h | h
         · exact h
         · rw [List.getElem?_eq_none h] at hg; cases hg
-      simp [hlen, this, hcal _ b (i + 1 + k) t hg]
+      have hnreq : isRequiredHead B t = false := by
+        rw [isRequiredHead_refs chain B hB hnd hg]; simp
+      simp [hlen, this, hcal.eq _ b (i + 1 + k) t hg hnreq]
 
 theorem sim_self (chain : List Tpl) (B : Blocks) (callee : Callee) (callee' : SpecInherit.Callee)
-    (hB : ∀ b, stackOf B b = refs chain b) (hcal : CalleeRel chain callee callee')
+    (hB : ∀ b, stackOf B b = refs chain b) (hnd : (chain.map (·.name)).Nodup) (hcal : CalleeRel chain B callee callee')
     (n : Name) (vars loc : Vars) (cur : Option BRef) (cur' : Option (Name × Nat)) :
-    pieceWith callee vars B cur true loc (.selfCall n) = piece chain callee' vars cur' loc (.selfCall n) := by
+    pieceWith callee vars B cur true true loc (.selfCall n) = piece chain callee' vars cur' loc (.selfCall n) := by
   simp only [pieceWith, piece, if_true, hB n]
   rw [defs_eq_refs]
   cases hr : refs chain n with
   | nil => simp
   | cons top more =>
     have h0 : (refs chain n)[0]? = some top := by simp [hr]
-    simp [hcal _ n 0 top h0]
+    have hhead := isRequiredHead_refs chain B hB hnd h0
+    simp only [List.map_cons, List.head?_cons]
+    by_cases hq : top.decl.req = true
+    · have hreq : isRequiredHead B top = true := by simp [hhead, hq]
+      simp [hq, hcal.req _ top hreq]
+    · have hnreq : isRequiredHead B top = false := by simp [hhead, hq]
+      simp [hq, hcal.eq _ n 0 top h0 hnreq]
 
 mutual
 theorem sim_piece (chain : List Tpl) (B : Blocks) (callee : Callee) (callee' : SpecInherit.Callee)
-    (hB : ∀ b, stackOf B b = refs chain b) (hnd : (chain.map (·.name)).Nodup) (hcal : CalleeRel chain callee callee')
+    (hB : ∀ b, stackOf B b = refs chain b) (hnd : (chain.map (·.name)).Nodup) (hcal : CalleeRel chain B callee callee')
     (vars : Vars) (cur : Option BRef) (cur' : Option (Name × Nat)) (hc : CurRel chain cur cur') :
     (p : Piece) → (loc : Vars) → agreeP chain p = true →
-    pieceWith callee vars B cur true loc p = piece chain callee' vars cur' loc p
+    pieceWith callee vars B cur true true loc p = piece chain callee' vars cur' loc p
   | .text s, loc, _ => by simp [pieceWith, piece]
   | .var x, loc, _ => by simp [pieceWith, piece, showVar, lookupVar]
   | .block n sc rq body, loc, ha => by
     simp only [agreeP, Bool.and_eq_true] at ha
-    exact sim_block chain B callee callee' hB hcal n sc rq body vars loc cur cur' ha.1
+    exact sim_block chain B callee callee' hB hnd hcal n sc rq body vars loc cur cur' ha.1
   | .superCall k, loc, _ => sim_super chain B callee callee' hB hnd hcal k vars loc cur cur' hc
-  | .selfCall n, loc, _ => sim_self chain B callee callee' hB hcal n vars loc cur cur'
+  | .selfCall n, loc, _ => sim_self chain B callee callee' hB hnd hcal n vars loc cur cur'
   | .forLoop x items body, loc, ha => by
     simp only [agreeP] at ha
     simp only [pieceWith, piece]
@@ -449,10 +545,10 @@ theorem sim_piece (chain : List Tpl) (B : Blocks) (callee : Callee) (callee' : S
     simp only [pieceWith, piece, sim_list chain B callee callee' hB hnd hcal vars cur cur' hc body loc ha]
   | .ext _, loc, _ => by simp [pieceWith, piece]
 theorem sim_list (chain : List Tpl) (B : Blocks) (callee : Callee) (callee' : SpecInherit.Callee)
-    (hB : ∀ b, stackOf B b = refs chain b) (hnd : (chain.map (·.name)).Nodup) (hcal : CalleeRel chain callee callee')
+    (hB : ∀ b, stackOf B b = refs chain b) (hnd : (chain.map (·.name)).Nodup) (hcal : CalleeRel chain B callee callee')
     (vars : Vars) (cur : Option BRef) (cur' : Option (Name × Nat)) (hc : CurRel chain cur cur') :
     (ps : List Piece) → (loc : Vars) → agreeL chain ps = true →
-    listWith callee vars B cur true loc ps = list chain callee' vars cur' loc ps
+    listWith callee vars B cur true true loc ps = list chain callee' vars cur' loc ps
   | [], loc, _ => by simp [listWith, list]
   | p :: ps, loc, ha => by
     simp only [agreeL, Bool.and_eq_true] at ha
@@ -462,9 +558,6 @@ theorem sim_list (chain : List Tpl) (B : Blocks) (callee : Callee) (callee' : Sp
     | error e => rfl
     | ok a => cases list chain callee' vars cur' loc ps <;> rfl
 end
-
-
-def agreeAll (chain : List Tpl) : Bool := chain.all (fun t => agreeL chain t.body)
 
 mutual
 theorem agree_declsP (chain : List Tpl) : (p : Piece) → agreeP chain p = true →
@@ -514,69 +607,19 @@ theorem agree_of_mem_refs {chain : List Tpl} (hag : agreeAll chain = true) {b : 
   have := List.all_eq_true.mp hag t ht
   exact agree_declsL chain t.body this _ (refOf_mem_decls hr)
 
-/-- calling a block function with budget `n` = rendering the corresponding definition with budget `n` -/
+/-- calling a block function with budget `n` = rendering the corresponding definition with budget `n`, except that
+    a required declaration at the head of its stack raises -/
 theorem callFn_renderDef (chain : List Tpl) (B : Blocks)
     (hB : ∀ b, stackOf B b = refs chain b) (hnd : (chain.map (·.name)).Nodup) (hag : agreeAll chain = true) :
-    ∀ n, CalleeRel chain (callFn n B) (renderDef n chain)
-  | 0 => by intro vars b i r _; simp [callFn, renderDef]
+    ∀ n, CalleeRel chain B (callFn n B) (renderDef n chain)
+  | 0 => ⟨by intro vars b i r _ hn; simp [callFn, renderDef, hn], by intro vars r h; simp [callFn, h]⟩
   | n + 1 => by
-    intro vars b i r hr
+    refine ⟨?_, by intro vars r h; simp [callFn, h]⟩
+    intro vars b i r hr hn
     have hd : (defs chain b)[i]? = some r.decl := by rw [defs_eq_refs]; simp [List.getElem?_map, hr]
-    simp only [callFn, renderDef, hd]
+    simp only [callFn, hn, renderDef, hd]
     exact sim_list chain B _ _ hB hnd (callFn_renderDef chain B hB hnd hag n) vars (some r) (some (b, i)) hr
       r.decl.body [] (agree_of_mem_refs hag (List.mem_of_getElem? hr))
-
-theorem load_ok {L : List Tpl} {n : Name} {t : Tpl} (h : load L n = .ok t) : compileOk t = true := by
-  unfold load at h
-  split at h
-  · cases h
-  · split at h
-    · cases h; assumption
-    · cases h
-
-theorem IsChain.all_load {L : List Tpl} {vars : Vars} : (chain : List Tpl) → IsChain L vars chain →
-    ∀ t ∈ chain, load L t.name = .ok t
-  | [], h, _, _ => h.elim
-  | [r], h, t, ht => by simp at ht; subst ht; exact h.1
-  | c :: p :: rest, h, t, ht => by
-    rcases List.mem_cons.mp ht with rfl | ht
-    · exact h.1
-    · exact IsChain.all_load (p :: rest) h.2.2 t ht
-
-theorem nodup_of_compileOk {t : Tpl} (h : compileOk t = true) : nodupNames (blockNames t) = true := by
-  simp only [compileOk, Bool.and_eq_true] at h
-  exact h.1.1
-
-/-- the registry the root's body runs with (`blocks_after_chain` in the form the proofs use) -/
-theorem stackOf_final (L : List Tpl) (vars : Vars) (c : Tpl) (chain : List Tpl) (hch : IsChain L vars (c :: chain))
-    (b : Name) : stackOf (chain.foldl registerParent (initBlocks c)) b = refs (c :: chain) b := by
-  rw [stackOf_foldl_register, stackOf_initBlocks, refs_cons]
-  intro t ht
-  exact nodup_of_compileOk (load_ok (IsChain.all_load _ hch t (List.mem_cons_of_mem _ ht)))
-
-theorem renderTemplate_chain (L : List Tpl) (vars : Vars) (c : Tpl) (chain : List Tpl) (hops fuel : Nat)
-    (hch : IsChain L vars (c :: chain)) (hnd : ((c :: chain).map (·.name)).Nodup) (hlen : chain.length < hops)
-    (hag : agreeAll (c :: chain) = true) :
-    renderTemplate L hops fuel vars c.name = renderChain fuel (c :: chain) vars := by
-  have hroot : ∃ root, (c :: chain).getLast? = some root := by
-    cases h : (c :: chain).getLast? with
-    | none => simp at h
-    | some r => exact ⟨r, rfl⟩
-  obtain ⟨root, hroot⟩ := hroot
-  have hmem : root ∈ c :: chain := List.mem_of_getLast? hroot
-  simp only [renderTemplate, hch.head_load, rootRender,
-    runRoots_chain L fuel vars chain c hops (initBlocks c) root hch hlen hroot, renderChain, hroot]
-  have hB := stackOf_final L vars c chain hch
-  have := sim_list (c :: chain) _ _ _ hB hnd (callFn_renderDef (c :: chain) _ hB hnd hag fuel) vars none none
-    trivial root.body [] (List.all_eq_true.mp hag root hmem)
-  rw [this]
-  cases list (c :: chain) (renderDef fuel (c :: chain)) vars none [] root.body <;> rfl
-
-/-! ## required blocks declared in the root only -/
-
-/-- no template of the chain but the last (the root) declares a `required` block -/
-def reqOnlyRoot (chain : List Tpl) : Bool :=
-  chain.dropLast.all (fun t => (declsL t.body).all (fun d => !d.req))
 
 mutual
 theorem agreeP_of_decls (chain : List Tpl) : (p : Piece) →
@@ -618,60 +661,73 @@ theorem find_self_of_nodup : (ds : List Decl) → nodupNames (ds.map (·.name)) 
         rw [this] at hn; exact absurd hn.1 (by simp)
       simp [List.find?, hne, find_self_of_nodup ds hn.2 d hd]
 
-theorem defs_append (k1 k2 : List Tpl) (n : Name) : defs (k1 ++ k2) n = defs k1 n ++ defs k2 n := by
-  simp [defs, List.filterMap_append]
 
-theorem mem_defs {kids : List Tpl} {n : Name} {d : Decl} (h : d ∈ defs kids n) : ∃ t ∈ kids, d ∈ declsL t.body := by
-  unfold defs at h
-  rw [List.mem_filterMap] at h
-  obtain ⟨t, ht, hf⟩ := h
-  exact ⟨t, ht, List.mem_of_find?_eq_some hf⟩
-
-theorem defs_ne_nil_of_decl {kids : List Tpl} {t : Tpl} (ht : t ∈ kids) {d : Decl} (hd : d ∈ declsL t.body) :
-    defs kids d.name ≠ [] := by
-  intro h
-  have : findBlock d.name t.body = none := by
-    unfold defs at h
-    rw [List.filterMap_eq_nil_iff] at h
-    exact h t ht
-  unfold findBlock at this
-  rw [List.find?_eq_none] at this
-  have := this d hd
-  simp at this
-
-theorem agreeAll_of_reqOnlyRoot (kids : List Tpl) (root : Tpl)
-    (hnd : nodupNames (blockNames root) = true) (h : reqOnlyRoot (kids ++ [root]) = true) :
-    agreeAll (kids ++ [root]) = true := by
-  have hk : ∀ t ∈ kids, ∀ d ∈ declsL t.body, d.req = false := by
-    simp only [reqOnlyRoot, List.dropLast_concat, List.all_eq_true, Bool.not_eq_true'] at h
-    exact h
-  have hfirst : ∀ n d0 more, defs kids n = d0 :: more → d0.req = false := by
-    intro n d0 more he
-    obtain ⟨t, ht, hd⟩ := mem_defs (n := n) (d := d0) (by rw [he]; simp)
-    exact hk t ht d0 hd
+/-- in a chain of templates that compile (no block name twice), every placeholder is among the definitions of its
+    name: the emitted call-site test never fires on somebody else's definition -/
+theorem agreeAll_of_nodup (chain : List Tpl) (h : ∀ t ∈ chain, nodupNames (blockNames t) = true) :
+    agreeAll chain = true := by
   unfold agreeAll
   rw [List.all_eq_true]
   intro t ht
   apply agreeL_of_decls
   intro d hd
+  have hf : findBlock d.name t.body = some d := find_self_of_nodup _ (h t ht) d hd
+  have hmem : d ∈ defs chain d.name := by
+    unfold defs; rw [List.mem_filterMap]; exact ⟨t, ht, hf⟩
   unfold reqAgree
-  rw [defs_append]
-  rcases List.mem_append.mp ht with ht | ht
-  · -- a child's declaration: never required, and some child defines it
-    have hne := defs_ne_nil_of_decl ht hd
-    cases he : defs kids d.name with
-    | nil => exact absurd he hne
-    | cons d0 more =>
-      simp [hfirst _ _ _ he, hk t ht d hd]
-  · -- the root's own declaration
-    simp only [List.mem_singleton] at ht; subst ht
-    have hroot : defs [t] d.name = [d] := by
-      simp [defs, findBlock, find_self_of_nodup (declsL t.body) hnd d hd]
-    rw [hroot]
-    cases he : defs kids d.name with
-    | nil => simp
-    | cons d0 more => simp [hfirst _ _ _ he]
+  split
+  · rename_i d0 heq
+    rw [heq] at hmem
+    simp only [List.mem_singleton] at hmem
+    subst hmem
+    cases d.req <;> rfl
+  · rfl
 
+theorem load_ok {L : List Tpl} {n : Name} {t : Tpl} (h : load L n = .ok t) : compileOk t = true := by
+  unfold load at h
+  split at h
+  · cases h
+  · split at h
+    · cases h; assumption
+    · cases h
+
+theorem IsChain.all_load {L : List Tpl} {vars : Vars} : (chain : List Tpl) → IsChain L vars chain →
+    ∀ t ∈ chain, load L t.name = .ok t
+  | [], h, _, _ => h.elim
+  | [r], h, t, ht => by simp at ht; subst ht; exact h.1
+  | c :: p :: rest, h, t, ht => by
+    rcases List.mem_cons.mp ht with rfl | ht
+    · exact h.1
+    · exact IsChain.all_load (p :: rest) h.2.2 t ht
+
+theorem nodup_of_compileOk {t : Tpl} (h : compileOk t = true) : nodupNames (blockNames t) = true := by
+  simp only [compileOk, Bool.and_eq_true] at h
+  exact h.1.1
+
+/-- the registry the root's body runs with (`blocks_after_chain` in the form the proofs use) -/
+theorem stackOf_final (L : List Tpl) (vars : Vars) (c : Tpl) (chain : List Tpl) (hch : IsChain L vars (c :: chain))
+    (b : Name) : stackOf (chain.foldl registerParent (initBlocks c)) b = refs (c :: chain) b := by
+  rw [stackOf_foldl_register, stackOf_initBlocks, refs_cons]
+  intro t ht
+  exact nodup_of_compileOk (load_ok (IsChain.all_load _ hch t (List.mem_cons_of_mem _ ht)))
+
+theorem renderTemplate_chain (L : List Tpl) (vars : Vars) (c : Tpl) (chain : List Tpl) (hops fuel : Nat)
+    (hch : IsChain L vars (c :: chain)) (hnd : ((c :: chain).map (·.name)).Nodup) (hlen : chain.length < hops) :
+    renderTemplate L hops fuel vars c.name = renderChain fuel (c :: chain) vars := by
+  obtain ⟨root, hroot⟩ : ∃ root, (c :: chain).getLast? = some root := by
+    cases h : (c :: chain).getLast? with
+    | none => simp at h
+    | some r => exact ⟨r, rfl⟩
+  have hmem : root ∈ c :: chain := List.mem_of_getLast? hroot
+  have hag : agreeAll (c :: chain) = true :=
+    agreeAll_of_nodup _ (fun t ht => nodup_of_compileOk (load_ok (IsChain.all_load _ hch t ht)))
+  simp only [renderTemplate, hch.head_load, rootRender,
+    runRoots_chain L fuel vars chain c hops (initBlocks c) root hch hlen hroot, renderChain, hroot]
+  have hB := stackOf_final L vars c chain hch
+  have := sim_list (c :: chain) _ _ _ hB hnd (callFn_renderDef (c :: chain) _ hB hnd hag fuel) vars none none
+    trivial root.body [] (List.all_eq_true.mp hag root hmem)
+  rw [this]
+  cases list (c :: chain) (renderDef fuel (c :: chain)) vars none [] root.body <;> rfl
 
 /-! ## a second `extends` -/
 
@@ -693,12 +749,7 @@ theorem inv_topPiece (L : List Tpl) (fuel : Nat) (vars : Vars) (he : Bool) :
   | .forLoop x it body, rl, st, st', o, hi, h => by
     simp only [topPiece] at h; split at h <;> simp at h; obtain ⟨rfl, _⟩ := h; exact hi
   | .block n sc rq body, rl, st, st', o, hi, h => by
-    simp only [topPiece] at h
-    split at h
-    · simp at h; obtain ⟨rfl, _⟩ := h; exact hi
-    · split at h
-      · simp at h; obtain ⟨rfl, _⟩ := h; exact hi
-      · split at h <;> simp at h; obtain ⟨rfl, _⟩ := h; exact hi
+    simp only [topPiece] at h; split at h <;> simp at h; obtain ⟨rfl, _⟩ := h; exact hi
   | .ifc f body, rl, st, st', o, hi, h => by
     simp only [topPiece] at h
     split at h
@@ -729,12 +780,5 @@ theorem inv_topList (L : List Tpl) (fuel : Nat) (vars : Vars) (he : Bool) :
         simp at h; obtain ⟨rfl, _⟩ := h
         exact inv_topList L fuel vars he ps rl st1 st2 b (inv_topPiece L fuel vars he p rl st st1 a hi h1) h2
 end
-
-theorem eq_dropLast_append_of_getLast? {α} : (l : List α) → (r : α) → l.getLast? = some r → l = l.dropLast ++ [r]
-  | [], r, h => by simp at h
-  | [a], r, h => by simp at h; simp [h]
-  | a :: b :: l, r, h => by
-    have := eq_dropLast_append_of_getLast? (b :: l) r (by simpa [List.getLast?_cons_cons] using h)
-    rw [List.dropLast_cons_cons, List.cons_append, ← this]
 
 end JinjaV.Inherit
